@@ -135,7 +135,7 @@ Proof.
   rewrite Hm, Hp. cbn [N.eqb Z.eqb andb].
   destruct (ham84_dec (nth 5 p 0)) as [cb|]; [|discriminate]. inversion C6 as [C6']. rewrite C6'.
   destruct (ham84_dec (nth 7 p 0)) as [c7|]; [|discriminate].
-  apply andb_true_iff in Hb. destruct Hb as [Hpn Hcs]. apply Z.eqb_eq in Hpn. apply N.eqb_eq in Hcs.
+  apply andb_true_iff in Hb. destruct Hb as [Hpn Hcs]. apply Z.eqb_eq in Hpn. unfold page_code in Hpn. apply N.eqb_eq in Hcs.
   cbn [pb_recv pb_page pb_mag pb_cur pb_cd pb_done]. rewrite Hr. cbn [andb]. rewrite Hpn. rewrite Z.eqb_refl, N.eqb_refl.
   cbn [negb orb]. rewrite Hc, Hcs. reflexivity.
 Qed.
